@@ -326,13 +326,19 @@ def r4_lhs(ctx, repo):
     class Roles(ast.NodeTransformer):
         """replace the unit-draw column, the stratum lower ends and the stratum upper ends by U / A / B"""
 
-        def __init__(self, j):
+        def __init__(self, j, at=None):
             self.j = j
+            self.at = at
             self.seen = set()
             self.bad = []
 
         def visit_Subscript(self, nd):
             b = nd.value
+            if isinstance(b, ast.Name) and self.at is not None:
+                # a local whose recipe is no longer re-evaluable (the generator was used since): what it was bound to
+                o_ = T.origin(b.id, self.at)
+                if o_ is not None and (is_rand(o_) or is_linspace(o_)):
+                    b = o_
             if is_rand(b) and isinstance(nd.slice, ast.Tuple) and len(nd.slice.elts) == 2 and isinstance(nd.slice.elts[0], ast.Slice) \
                     and text(nd.slice.elts[0]) == ":" and access_path(nd.slice.elts[1]) == self.j:
                 if [text(x) for x in b.args] != [samples, n]:
@@ -375,7 +381,7 @@ def r4_lhs(ctx, repo):
         unknown.append("stratified column construction not found")
     else:
         lp, j, s_, vx = strat
-        R = Roles(j)
+        R = Roles(j, at=s_)
         e = R.visit(copy.deepcopy(vx))
         problems.extend(R.bad)
         if not R.bad:
